@@ -35,3 +35,64 @@ Theorem C08_pinned_iteration_refuted :
   exists d, (d < 2 ^ NUM_BUCKETS)%N /\ ~ NoDup (bucket_order false d).
 Proof. exact pinned_order_refuted. Qed.
 Print Assumptions C08_pinned_iteration_refuted.
+
+(* ------------------------------------------------------------------------------------------ *)
+(* Table level (Proofs/ClosestTable.v), on tables satisfying the C07 invariant *)
+From Discv5V Require Import Proofs.KBucketInv Proofs.KBucketTable Proofs.KBucketPending Proofs.ClosestTable.
+
+(* Iterating by closeness yields every stored node exactly once (a permutation of the full scan of
+   the table after the pending nodes were applied), in strictly increasing XOR distance to the
+   target, for every local id, target and table content. *)
+Theorem C08_closest_is_the_sorted_full_scan :
+  forall c t target now,
+  TInv c t -> (local t < 2 ^ NUM_BUCKETS)%N -> (target < 2 ^ NUM_BUCKETS)%N ->
+  let t' := fst (t_closest true c t target now) in
+  let out := snd (t_closest true c t target now) in
+  Permutation out (all_nodes t') /\
+  StronglySorted (fun a b => (N.lxor target (nkey a) < N.lxor target (nkey b))%N) out /\
+  TInv c t'.
+Proof. exact closest_exact. Qed.
+Print Assumptions C08_closest_is_the_sorted_full_scan.
+
+(* nodes_by_distances: the concatenation, in request order, of the buckets of the in-range requested
+   distances, cut at the cap (max(max_nodes, 1): the code checks the count after each push) *)
+Theorem C08_nodes_by_distances_spec :
+  forall c t ds maxn now,
+  let t' := fst (t_nodes_by_distances c t ds maxn now) in
+  snd (t_nodes_by_distances c t ds maxn now) =
+  firstn (cap maxn) (flat_map (bucket_of_distance t') (valid_distances ds)).
+Proof. exact nodes_by_distances_spec. Qed.
+Print Assumptions C08_nodes_by_distances_spec.
+
+Theorem C08_nodes_by_distances_only_requested :
+  forall c t ds maxn now n,
+  TInv c t ->
+  let t' := fst (t_nodes_by_distances c t ds maxn now) in
+  In n (snd (t_nodes_by_distances c t ds maxn now)) ->
+  exists d, In d ds /\ (0 < d <= NUM_BUCKETS)%N /\ In n (bucket_of_distance t' d) /\
+            N.lxor (local t') (nkey n) <> 0%N /\ (N.log2 (N.lxor (local t') (nkey n)) + 1 = d)%N.
+Proof. exact nbd_only_requested. Qed.
+Print Assumptions C08_nodes_by_distances_only_requested.
+
+Theorem C08_nodes_by_distances_out_of_range_ignored :
+  forall c t ds maxn now,
+  t_nodes_by_distances c t ds maxn now = t_nodes_by_distances c t (valid_distances ds) maxn now /\
+  ((forall d, In d ds -> d = 0%N \/ (NUM_BUCKETS < d)%N) ->
+   snd (t_nodes_by_distances c t ds maxn now) = []).
+Proof.
+  intros. split; [apply nbd_out_of_range_ignored|apply nbd_nothing_out_of_range].
+Qed.
+Print Assumptions C08_nodes_by_distances_out_of_range_ignored.
+
+Theorem C08_nodes_by_distances_complete :
+  forall c t ds maxn now,
+  TInv c t -> NoDup ds ->
+  let t' := fst (t_nodes_by_distances c t ds maxn now) in
+  let res := snd (t_nodes_by_distances c t ds maxn now) in
+  let stored := flat_map (bucket_of_distance t') (valid_distances ds) in
+  TInv c t' /\
+  NoDup (map nkey stored) /\ NoDup (map nkey res) /\
+  length res = Nat.min (cap maxn) (length stored) /\
+  (length stored <= cap maxn -> res = stored).
+Proof. exact nbd_complete. Qed.
+Print Assumptions C08_nodes_by_distances_complete.
